@@ -255,6 +255,31 @@ func (g *Gen) typesCheck(o *Occ) {
 					w(`    if v, ok := tf.Attrs[%q].(types.Object); ok { vi, _ := tfi.Attrs[%q].(types.Object); typesCheck_%s(d, cz, key, v, vi, &%s, true) }`, n, n, s.Sub.ID, x)
 				}
 			}
+		case SMsgList, SMsgMap:
+			if s.EmbedPtr == "" && s.Oneof == nil {
+				// element attribute types removed: one diagnostic per removed type when some element reaches it
+				ct := "types.List"
+				if s.Kind == SMsgMap {
+					ct = "types.Map"
+				}
+				w(`    if c, ok := tf.Attrs[%q].(%s); ok { ci, _ := tfi.Attrs[%q].(%s); _ = ci; reached := false; var ev, eiv types.Object`, n, ct, n, ct)
+				if s.Kind == SMsgList {
+					w(`      for i := range %s { if i < len(c.Elems) && i < len(ci.Elems) { e, ok := c.Elems[i].(types.Object); ei, _ := ci.Elems[i].(types.Object); if ok && !e.Null && !reached { reached = true; ev, eiv = e, ei } } }`, x)
+					if s.SubPtr {
+						w(`      var src *%s%s; for i := range %s { if %s[i] != nil && src == nil { src = %s[i] } }`, g.TQ, s.Sub.MsgName, x, x, x)
+					} else {
+						w(`      var src *%s%s; for i := range %s { if src == nil { src = &%s[i] } }`, g.TQ, s.Sub.MsgName, x, x)
+					}
+				} else {
+					w(`      for k := range %s { e, ok := c.Elems[k].(types.Object); ei, _ := ci.Elems[k].(types.Object); if ok && !e.Null && !reached { reached = true; ev, eiv = e, ei } }`, x)
+					if s.SubPtr {
+						w(`      var src *%s%s; for _, sv := range %s { if sv != nil && src == nil { src = sv } }`, g.TQ, s.Sub.MsgName, x)
+					} else {
+						w(`      var src *%s%s; for _, sv := range %s { if src == nil { svv := sv; src = &svv } }`, g.TQ, s.Sub.MsgName, x)
+					}
+				}
+				w(`      if reached && src != nil { typesCheckElem_%s(d, cz, key+"[]", ev, eiv, src) } }`, s.Sub.ID)
+			}
 		case SScalar:
 			// same value as in the run with every type present
 			vt := g.tfv(s.Leaf.TFVal)
@@ -266,6 +291,9 @@ func (g *Gen) typesCheck(o *Occ) {
 	for _, s := range o.Slots {
 		if s.Sub != nil && s.Kind == SMsg {
 			g.typesCheck(s.Sub)
+		}
+		if s.Sub != nil && (s.Kind == SMsgList || s.Kind == SMsgMap) && s.EmbedPtr == "" && s.Oneof == nil {
+			g.typesCheckElem(s.Sub)
 		}
 	}
 }
@@ -319,4 +347,22 @@ func (g *Gen) harnessCorrupt(o *Occ) {
 	vrt.Reach("CorruptTo/%s/end")
 }
 `, name2, g.TQ, o.MsgName, o.MsgName, o.ID, o.ID, g.FQ, o.MsgName, o.ID, o.ID, g.FQ, o.MsgName, o.ID, o.ID, o.ID, o.ID)
+}
+
+// typesCheckElem: attribute types removed from a list / map element type: all elements share one path per
+// field and Append de-duplicates, so a removed type gives exactly one diagnostic once an element reaches it.
+func (g *Gen) typesCheckElem(o *Occ) {
+	if !g.once("typesCheckElem_" + o.ID) {
+		return
+	}
+	var b strings.Builder
+	w := func(format string, a ...interface{}) { fmt.Fprintf(&b, "\t"+format+"\n", a...) }
+	w("_, _, _, _ = d, tf, tfi, p")
+	for _, s := range o.Slots {
+		if s.Oneof != nil || s.EmbedPtr != "" {
+			continue
+		}
+		w(`{ key := path + "/%s"; nm := countWriteMissing(d, %q); if cz[key] == 1 { vrt.Assert("C06/to/"+key+":exactly-one-missing-diagnostic", nm == 1) } else { vrt.Assert("C06/to/"+key+":no-missing-diagnostic-when-present", nm == 0) } }`, s.Attr, s.Path)
+	}
+	g.p("func typesCheckElem_%s(d diag.Diagnostics, cz map[string]int, path string, tf, tfi types.Object, p *%s%s) {\n%s}\n", o.ID, g.TQ, o.MsgName, b.String())
 }
